@@ -4,8 +4,11 @@ package c02
 
 import (
 	"crypto"
+	"crypto/sha512"
 	"fmt"
 	"testing"
+
+	"golang.org/x/crypto/sha3"
 
 	"github.com/cloudflare/circl/internal/zzverif/lib"
 	"github.com/cloudflare/circl/sign/ed25519"
@@ -41,6 +44,10 @@ type edAPI struct {
 	verifyAny func(pk any, msg, sig []byte, m edMode) bool
 	// verifyAnyRaw lets the monitor pass inconsistent option combinations
 	badOpts func(pk any, msg, sig []byte, m edMode) []bool
+	// prehash is PH of the "ph" variant; twin is the non-prehash variant whose
+	// dom string differs from the ph one only in the flag octet
+	prehash func(msg []byte) []byte
+	twin    string
 }
 
 func ed25519API() *edAPI {
@@ -64,6 +71,8 @@ func ed25519API() *edAPI {
 		name: "ed25519", mon: "TestVerifEd25519", sigSize: ed25519.SignatureSize, pkSize: ed25519.PublicKeySize, seedSize: ed25519.SeedSize,
 		scalar:   scalarSpec{32, 32, l25519},
 		variants: []string{"pure", "ph", "ctx"},
+		prehash:  func(msg []byte) []byte { h := sha512.Sum512(msg); return h[:] },
+		twin:     "ctx",
 		validSign: func(m edMode) bool {
 			switch m.variant {
 			case "pure":
@@ -146,6 +155,8 @@ func ed448API() *edAPI {
 		name: "ed448", mon: "TestVerifEd448", sigSize: ed448.SignatureSize, pkSize: ed448.PublicKeySize, seedSize: ed448.SeedSize,
 		scalar:    scalarSpec{57, 57, l448},
 		variants:  []string{"pure", "ph"},
+		prehash:   func(msg []byte) []byte { h := make([]byte, 64); sha3.ShakeSum256(h, msg); return h },
+		twin:      "pure",
 		validSign: func(m edMode) bool { return len(m.ctx) <= 255 },
 		newKey: func(seed []byte) (any, any) {
 			sk := ed448.NewKeyFromSeed(seed)
@@ -199,7 +210,7 @@ func TestVerifEd448(t *testing.T)   { edMonitor(ed448API()) }
 func edMonitor(a *edAPI) {
 	lib.Mandatory("honest-verified", "altered", "rejected", "alt:trunc", "alt:append", "alt:bitflip", "alt:s-plus-l",
 		"alt:mode", "alt:ctx", "alt:msg", "alt:other-key", "alt:pubkey-bytes", "alt:bad-options", "alt:ctx-256",
-		"ctx-256-sign-refused", "full-bitflip-sweeps", "verifyany-agrees")
+		"ctx-256-sign-refused", "full-bitflip-sweeps", "verifyany-agrees", "alt:mode-prehash-digest")
 	nk := lib.Scale(3, 10)
 	lens := []int{0, 1, 63, 64, 127, 128, 129, 413}
 	type cs struct{ k, m int }
@@ -303,7 +314,7 @@ func edCase(a *edAPI, k, mi, mlen int) {
 		// signature string alterations, through both the direct and the VerifyAny entry
 		tg := &target{subject: a.name, entry: "Verify", mon: a.mon, detail: det,
 			verify: func(x []byte) bool { return a.verify(pk, msg, x, m) }}
-		full := mi < 2 || lib.Thorough()
+		full := mi < 2 || (lib.Thorough() && k < 3)
 		alterSig(tg, r, s1, altOpts{flips: 96, allFlips: full, scalars: []scalarSpec{a.scalar}})
 		tga := &target{subject: a.name, entry: "VerifyAny", mon: a.mon, detail: det,
 			verify: func(x []byte) bool { return a.verifyAny(pk, msg, x, m) }}
@@ -418,6 +429,34 @@ func edCase(a *edAPI, k, mi, mlen int) {
 				tryPk("random", r.Bytes(n))
 				tryPk("random-edge", r.EdgeBytes(n, 19))
 			}
+		}
+	}
+
+	// the prehash flag octet is all that separates "sign PH(M) without
+	// prehash" from "sign M with prehash" under the same context
+	for _, c := range ctxs {
+		mp, mt := edMode{"ph", c}, edMode{a.twin, c}
+		if !a.validSign(mp) || !a.validSign(mt) {
+			continue
+		}
+		digest := a.prehash(msg)
+		det := func() map[string]any {
+			return lib.D("api", a.name, "seed", seed, "msg", msg, "ctx", []byte(c), "prehash", digest)
+		}
+		sigT := a.sign(sk, digest, mt) // twin variant over PH(M)
+		sigP := a.sign(sk, msg, mp)    // ph variant over M
+		if !a.verify(pk, digest, sigT, mt) || !a.verify(pk, msg, sigP, mp) {
+			lib.Violation("C02:honest-rejected:"+a.name+":prehash-twin", a.mon, det())
+			continue
+		}
+		tg1 := &target{subject: a.name, entry: "Verify", mon: a.mon, detail: det,
+			verify: func(x []byte) bool { return a.verify(pk, msg, x, mp) }}
+		tg1.expectReject("mode-prehash-digest", sigT, "what", a.twin+" signature over PH(M) verified as ph signature over M")
+		tg2 := &target{subject: a.name, entry: "Verify", mon: a.mon, detail: det,
+			verify: func(x []byte) bool { return a.verify(pk, digest, x, mt) }}
+		tg2.expectReject("mode-prehash-digest", sigP, "what", "ph signature over M verified as "+a.twin+" signature over PH(M)")
+		if lib.Eq(sigT, sigP) {
+			lib.Violation("C02:mode-collision:"+a.name, a.mon, det())
 		}
 	}
 
